@@ -71,6 +71,21 @@ class Layout:
                     out += [('>>> q = 1  # %s' % self.mark(), 'src'), ('>>> r = 2  # %s' % self.mark(), 'src'),
                             (rng.choice(['>>> compile("1 +", "<cfg>", "eval")  # %s', '>>> __import__("json").loads("{bad")  # %s',
                                          '>>> raise SyntaxError("x", ("f.cfg", 1, 1, "x"))  # %s']) % self.mark(), 'fail')]
+                elif fail == 'call_doctest_helper':
+                    # the failing code was DEFINED by the doctest itself (its frames carry the doctest's file name too): the
+                    # failing line is still the statement of the doctest that called it
+                    out += [('>>> def own_helper(v):  # %s' % self.mark(), 'src'), ('...     w = v  # %s' % self.mark(), 'src'),
+                            ('...     raise KeyError(w)  # %s' % self.mark(), 'src'), ('>>> q = 1  # %s' % self.mark(), 'src'),
+                            (rng.choice(['>>> own_helper(3)  # %s', '>>> r = [own_helper(v) for v in (1, 2)]  # %s', '>>> sorted([3, 1], key=own_helper)  # %s']) % self.mark(), 'fail')]
+                elif fail == 'call_doctest_lambda':
+                    out += [('>>> inv = lambda v: 1 // v  # %s' % self.mark(), 'src'), ('>>> zs = list(map(inv, (1, 0)))  # %s' % self.mark(), 'fail')]
+                elif fail == 'call_doctest_method_multiline':
+                    out += [('>>> class Own:  # %s' % self.mark(), 'src'), ('...     def go(self):  # %s' % self.mark(), 'src'), ('...         return self.missing  # %s' % self.mark(), 'src'),
+                            ('>>> z = [1,  # %s' % self.mark(), 'src'), ('...      Own().go(),  # %s' % self.mark(), 'fail'), ('...      3]  # %s' % self.mark(), 'src')]
+                elif fail == 'raise_stored':
+                    # an exception that an earlier statement caught and kept is raised by a later one
+                    out += [('>>> try:  # %s' % self.mark(), 'src'), ('...     1 / 0  # %s' % self.mark(), 'src'), ('... except ZeroDivisionError as ex:  # %s' % self.mark(), 'src'),
+                            ('...     kept = ex  # %s' % self.mark(), 'src'), ('>>> q = 1  # %s' % self.mark(), 'src'), ('>>> raise kept  # %s' % self.mark(), 'fail')]
                 elif fail == 'gotwant':
                     m = self.mark()
                     out += [('>>> print("right %s")' % m, 'src'), ('WRONG %s' % m, 'fail'), ('second want line %s' % m, 'want')]
@@ -133,7 +148,8 @@ class Layout:
 
 HELPER = 'def failing_helper():\n    x = 1\n    raise KeyError("from helper")\n\n'
 FAILS = [None, 'raise', 'raise_multiline', 'call', 'call_in_block', 'gotwant', 'gotwant_after_multiline',
-         'raise_try_finally', 'raise_in_with', 'raise_reraise', 'raise_foreign_lineno', 'gotwant_after_bare_terminator', 'gotwant_after_bare_prompt']
+         'raise_try_finally', 'raise_in_with', 'raise_reraise', 'raise_foreign_lineno', 'gotwant_after_bare_terminator', 'gotwant_after_bare_prompt',
+         'call_doctest_helper', 'call_doctest_lambda', 'call_doctest_method_multiline', 'raise_stored']
 
 
 def gen_module(rng):
